@@ -38,7 +38,7 @@ using SG = Lock::SGuard;
 using SIXG = Lock::SIXGuard;
 using XG = Lock::XGuard;
 
-static_assert(sizeof(Lock) == 8, "lock classes are one 64-bit word");
+static_assert(sizeof(Lock) >= 8, "lock classes hold one 64-bit word (possibly padded)");
 
 namespace
 {
@@ -218,21 +218,30 @@ int NT = 0;            // program threads
 bool g_epilogue = true;
 const void *g_tls_node[kMaxT + 1];  // MCS: per-thread cached node pointer (published at points)
 
+// offset of the 64-bit lock word inside a lock object: 0 in the pinned source; learnt from the first atomic access
+// to a lock object, so that padding or an added leading member does not blind the monitors
+size_t g_word_off = 0;
 inline uint64_t
 Word(int l)
 {
-  return *reinterpret_cast<volatile uint64_t *>(&W->locks[l]);
+  return *reinterpret_cast<volatile uint64_t *>(reinterpret_cast<char *>(&W->locks[l]) + g_word_off);
 }
 inline const void *
 WordAddr(int l)
 {
-  return static_cast<const void *>(&W->locks[l]);
+  return static_cast<const void *>(reinterpret_cast<const char *>(&W->locks[l]) + g_word_off);
 }
 int
 LockOfAddr(const void *a)
 {
-  for (int l = 0; l < kLocks; ++l)
-    if (a == WordAddr(l)) return l;
+  for (int l = 0; l < kLocks; ++l) {
+    const auto *lo = reinterpret_cast<const char *>(&W->locks[l]);
+    const auto *p = static_cast<const char *>(a);
+    if (p >= lo && p + sizeof(uint64_t) <= lo + sizeof(Lock)) {
+      g_word_off = static_cast<size_t>(p - lo);
+      return l;
+    }
+  }
   return -1;
 }
 
